@@ -171,12 +171,21 @@ fn sim_check(id: &str, tier: &str, seed: u64, args: &[String]) -> i32 {
     let eval = Arc::new(default_eval(&spec));
     let is_c20 = spec.monitors & vengine::mon::P20 != 0;
     if let Some(path) = arg_val(args, "--replay") {
-        let (case, _) = match load_replay(&path) {
+        let (case, meta) = match load_replay(&path) {
             Ok(x) => x,
             Err(e) => {
                 eprintln!("{}", e);
                 return 2;
             }
+        };
+        // a case found by the exclusions-off campaign replays with the options it was found with
+        let eval = match meta["options"].as_u64() {
+            Some(o) if o as u32 != spec.options && arg_val(args, "--add-options").is_none() && arg_val(args, "--del-options").is_none() => {
+                let mut s2 = spec_for(id).unwrap();
+                s2.options = o as u32;
+                Arc::new(default_eval(&s2))
+            }
+            _ => eval,
         };
         let out = eval(&case, true);
         if arg_val(args, "--trace").is_some() || args.iter().any(|a| a == "-v") {
@@ -261,6 +270,7 @@ fn sim_check(id: &str, tier: &str, seed: u64, args: &[String]) -> i32 {
     }
     // Known findings whose trigger the main campaign excludes by construction are
     // reproduced by a second small campaign with the exclusion switched off.
+    let mut replay_options = spec.options;
     let mut failure = out.failure;
     if failure.is_none() {
         failure = failure_from_fuzz;
@@ -278,6 +288,9 @@ fn sim_check(id: &str, tier: &str, seed: u64, args: &[String]) -> i32 {
                 }
                 println!("{} repro campaign (exclusions off): {} cases, known-finding hits {:?}", id, out2.acc.evaluations, out2.acc.known_hits);
                 failure = out2.failure;
+                if failure.is_some() {
+                    replay_options = spec2.options;
+                }
             }
         }
     }
@@ -318,7 +331,7 @@ fn sim_check(id: &str, tier: &str, seed: u64, args: &[String]) -> i32 {
         }
     }
     if let Some(f) = &failure {
-        let path = write_replay("/verif/replays", id, tier, seed, f, spec.profile.name, spec_options);
+        let path = write_replay("/verif/replays", id, tier, seed, f, spec.profile.name, replay_options);
         println!("{}/{} at op {}: {}", f.violation.property, f.violation.monitor, f.violation.op_index, f.violation.detail);
         println!("signature: {}", f.sig);
         println!("VIOLATION property={} replay={}", id, path);
